@@ -115,7 +115,10 @@ void h_neighbors(void)
         __CPROVER_assert(diff == 1, "C13.nbr listed cells differ by one in a single dimension");
         for (size_t j = 0; j < LMAX; j++) if (j >= k && j < i) __CPROVER_assert(l.v[j] != n, "C13.nbr no neighbour is listed twice");
     }
-    if (l.size - k == 2 * DIM) REACH("all neighbours present"); if (l.size == k) REACH("no neighbour");
+    #if W >= 3
+    if (l.size - k == 2 * DIM) REACH("all neighbours present");
+#endif
+    if (l.size == k) REACH("no neighbour");
 }
 static void check_others_unchanged(unsigned skip_slot)
 {
@@ -149,7 +152,11 @@ static void remove_present(bool B)
     bool r = B ? gridb_remove(cell) : gridn_remove(cell);
     __CPROVER_assert(r && HASH_FIND(c) == NULLREF, "C13.lookup a removed cell is no longer found");
     check_inv(B); check_others_unchanged(slot_of(c));
+    
+#if W >= 3      /* a window of width 2 has no enclosed cell */
     if (spec_present_neighbors(c) == 2 * DIM) REACH("removed an enclosed cell");
+#endif
+
 }
 void h_n_create_add(void) { create_add(false); }
 void h_n_create_remove(void) { create_remove(false); }
